@@ -61,7 +61,7 @@ fn explore(api: &Api, setting_ix: usize, chunk: usize, nchunks: usize, tier: Tie
     let w = match world(api, setting_ix, seed) {
         Ok(w) => w,
         Err(e) => {
-            cx.violate_case(&format!("{}/error", e.step), format!("honest step {} failed: {:?}", e.step, e.e), json!({}));
+            cx.violate_case(&format!("honest-step/{}", e.step), format!("honest step {} failed: {:?}", e.step, e.e), json!({}));
             return;
         }
     };
